@@ -5631,7 +5631,7 @@ class Symbol:
             # Display bool values as n, y in the warning
             log.note(
                 "the value {} is invalid for {}, which has type {} -- assignment ignored".format(
-                    BOOL_TO_STR[value] if value in BOOL_TO_STR else f"'{value}'",
+                    BOOL_TO_STR[value] if value in BOOL_TO_STR else f"'{escape(str(value))}'",
                     escape(self.name_and_loc),
                     TYPE_TO_STR[self.orig_type],
                 )
@@ -6466,7 +6466,7 @@ class Choice:
             # Display bool values as n and y in the warning
             log.note(
                 "the value {} is invalid for {}, which has type {} -- assignment ignored".format(
-                    BOOL_TO_STR[value] if value in BOOL_TO_STR else f"'{value}'",
+                    BOOL_TO_STR[value] if value in BOOL_TO_STR else f"'{escape(str(value))}'",
                     escape(self.name_and_loc),
                     TYPE_TO_STR[self.orig_type],
                 )
